@@ -176,6 +176,12 @@ theorem rowShape_parts {names : List (List Char)} {single : Bool} {r : Tags} (hs
   · have := h3 n hn
     intro e; rw [e] at this; cases this
 
+theorem getLast?_append_ne (a b : List UInt8) (hb : b ≠ []) : (a ++ b).getLast? = b.getLast? := by
+  rw [List.getLast?_append]
+  cases h : b.getLast? with
+  | none => exact absurd (List.getLast?_eq_none_iff.mp h) hb
+  | some x => rfl
+
 /-! ### the mutual induction -/
 
 mutual
@@ -232,13 +238,14 @@ theorem spV : ∀ (v : Val) (bs : List UInt8), wfS v = true → Spells v bs → 
     simp only [wfS, Bool.and_eq_true] at hwf
     refine SpOk_dict h1 h2 hwf.1.2 (spTags (tagLoop_dict (by decide)) true d body (fun _ => commaLoop_dict) hwf.2 hwf.1.1 h) ?_
     intro e; subst e; cases h; rfl
-  | .grid md cols rows ver, _, hwf, .grid _ _ _ _ nl _ hn (.mk _ _ _ _ m nl1 cl nl2 rw hm hn1 hc hn2 hr) => by
+  | .grid md cols rows ver, _, hwf, .grid _ _ _ _ w nl _ hw hn (.mk _ _ _ _ m w1 nl1 cl w2 nl2 rw hm hw1 hn1 hc hw2 hn2 hr) => by
     simp only [wfS, Bool.and_eq_true, beq_iff_eq] at hwf
     obtain ⟨⟨⟨⟨⟨⟨hver, hms⟩, hcs⟩, hrs⟩, hwo⟩, hwc⟩, hwr⟩ := hwf
     simp only [colsShape, Bool.and_eq_true] at hcs
-    exact SpOk_grid (m := m) (nl1 := nl1) (cl := cl) (nl2 := nl2) (rw := rw)
+    exact SpOk_grid (m := m) (w1 := w1) (nl1 := nl1) (cl := cl) (w2 := w2) (nl2 := nl2) (rw := rw)
       ⟨hver, spMeta (tagLoop_dict (by decide)) md m hwo hms hm, spCols cols cl hwc hcs.1.2 hc, nodupB_nodup _ hcs.2,
-       spRows cols.names (cols.length == 1) rows rw hwr hrs hr, hn1, hn2⟩ hn
+       spRows cols.names (cols.length == 1) false rows rw hwr hrs hr (fun e => by cases e), hw1, hn1, hw2, hn2,
+       fun _ _ => rfl⟩ hw hn
 theorem spItems : ∀ (xs : Vals) (body : List UInt8), wfSs xs = true → SpItems xs body → RdItems xs body
   | .nil, _, _, .nil => RdItems_nil
   | .cons v .nil, _, hwf, .last _ bs w h hw => by
@@ -263,14 +270,15 @@ theorem spTags {loop : Nat → Nat → PS → Bool → KVs → Res (KVs × PS)} 
     simp only [keysIdent, Bool.and_eq_true] at hk
     have := RdTagsW_ofTag hL hk.1 (spTag k v bs hwf.1 h) (NextOk_nil hL)
     simpa using this
-  | br, .cons k v (.cons k2 v2 t), _, hC, hwf, hk, .space _ _ _ _ _ _ bs w rest h hw ht => by
+  | br, .cons k v (.cons k2 v2 t), _, hC, hwf, hk, .space _ _ _ _ _ _ bs w rest h hw hne ht => by
     have hwf' := hwf
     have hk' := hk
     simp only [wfST, Bool.and_eq_true] at hwf'
     simp only [keysIdent, Bool.and_eq_true] at hk'
     have ih := spTags hL br (.cons k2 v2 t) rest hC (by simp only [wfST, Bool.and_eq_true]; exact hwf'.2)
       (by simp only [keysIdent, Bool.and_eq_true]; exact hk'.2) ht
-    exact RdTagsW_ofTag hL hk'.1 (spTag k v bs hwf'.1 h) (NextOk_space hw ih)
+    have := RdTagsW_ofTag hL hk'.1 (spTag k v bs hwf'.1 h) (NextOk_space hw hne ih)
+    simpa using this
   | _, .cons k v (.cons k2 v2 t), _, hC, hwf, hk, .comma _ _ _ _ _ bs w w' rest h hw hw' ht => by
     have hwf' := hwf
     have hk' := hk
@@ -284,11 +292,11 @@ theorem spMeta {loop : Nat → Nat → PS → Bool → KVs → Res (KVs × PS)} 
     ∀ (md : OTags) (m : List UInt8), wfSO md = true → metaShape md = true → SpMeta md m →
       MetaOkW (RdTagsW loop term) md m
   | .none, _, _, _, .none => MetaOkW.none
-  | .some .nil, _, _, hs, .some _ body h => by simp [metaShape, Tags.isEmpty] at hs
-  | .some (.cons k v t'), _, hwf, hs, .some _ body h => by
+  | .some .nil, _, _, hs, .some _ w body hw hne h => by simp [metaShape, Tags.isEmpty] at hs
+  | .some (.cons k v t'), _, hwf, hs, .some _ w body hw hne h => by
     simp only [metaShape, Bool.and_eq_true] at hs
     simp only [wfSO] at hwf
-    exact MetaOkW.some k v t' body hs.2 (spTags hL false (.cons k v t') body (fun e => by cases e) hwf hs.1.2 h)
+    exact MetaOkW.some k v t' w body hw hne hs.2 (spTags hL false (.cons k v t') body (fun e => by cases e) hwf hs.1.2 h)
 theorem spCols : ∀ (cols : Cols) (cl : List UInt8), wfSC cols = true → colsShapeAux cols = true → SpCols cols cl →
     ColsOkW cols cl
   | .cons n md .nil, _, hwf, hs, .one _ _ m h => by
@@ -306,60 +314,139 @@ theorem spCells : ∀ (r : Tags) (cells : List (List Char × List UInt8)), wfST 
   | .cons k v t, _, hwf, .cons _ _ _ bs cells h ht => by
     simp only [wfST, Bool.and_eq_true] at hwf
     exact CellsW_cons (spV v bs hwf.1 h) (spCells t cells hwf.2 ht)
-theorem spRows (names : List (List Char)) (single : Bool) : ∀ (rows : Rows) (rw : List UInt8), wfSR rows = true →
-    rowsShape names single rows = true → SpRows names rows rw → RowsOkW names single rows rw
-  | .nil, _, _, _, .nil _ => RowsOkW.nil
-  | .cons r rs, _, hwf, hs, .cons _ _ _ cells line nl rest hc hl hn t => by
+theorem spRows (names : List (List Char)) (single tlf : Bool) : ∀ (rows : Rows) (rw : List UInt8), wfSR rows = true →
+    rowsShape names single rows = true → SpRows names rows rw → (tlf = true → rw ≠ [] → rw.getLast? ≠ some 13) →
+    RowsOkW names single tlf rows rw
+  | .nil, _, _, _, .nil _, _ => RowsOkW.nil
+  | .cons r rs, _, hwf, hs, .cons _ _ _ cells line w nl rest hc hl hw hn t, hT => by
     simp only [wfSR, Bool.and_eq_true] at hwf
     simp only [rowsShape, Bool.and_eq_true] at hs
     obtain ⟨p1, p2, p3⟩ := rowShape_parts hs.1
-    exact RowsOkW.cons r rs line nl rest ⟨⟨cells, spCells r cells hwf.1 hc, hl⟩, p3, p1, p2⟩ hn
-      (spRows names single rs rest hwf.2 hs.2 t)
+    have hcr : CrOk nl rest tlf := by
+      intro e hr
+      cases tlf with
+      | false => rfl
+      | true =>
+        exfalso
+        subst e; subst hr
+        exact hT rfl (by simp) (by simp)
+    have hT' : tlf = true → rest ≠ [] → rest.getLast? ≠ some 13 := by
+      intro e hr
+      have := hT e (by simp [hr])
+      rwa [getLast?_append_ne _ _ hr] at this
+    exact RowsOkW.cons r rs line w nl rest ⟨⟨cells, spCells r cells hwf.1 hc, hl⟩, p3, p1, p2⟩ hw hn hcr
+      (spRows names single tlf rs rest hwf.2 hs.2 t hT')
 end
 
 /-! ### the top level -/
 
-/-- a document that is not a grid -/
-theorem fromBytes_of_SpOk {v : Val} {bs : List UInt8} (h : SpOk v bs) (hn : nestV v < 64) :
-    fromBytes bs = .ok (lexImg v) := by
-  unfold fromBytes fuelFor
-  have hat : At (Scan.make bs) (bs ++ []) := by simpa using At_make_all bs
-  have hs : (Scan.make bs).stash = [] := by cases bs <;> simp [Scan.make]
-  have hle : 4 * bs.length + 8 ≤ 8 * bs.length + 64 := by omega
-  obtain ⟨p, p', e1, _, _, e2, _⟩ := h.rd 0 (8 * bs.length + 64) (8 * bs.length + 64) (Scan.make bs) [] hat hs
-    (Or.inl rfl) hle hle (by omega)
-  simp [e1, e2]
+theorem DelimW_of_trailer {t : List UInt8} (h : Trailer t) : DelimW t := by
+  obtain ⟨hw, h1⟩ := h
+  cases t with
+  | nil => exact Or.inl rfl
+  | cons b r =>
+    have hb := hw b (by simp)
+    by_cases hnl : b = 13 ∨ b = 10
+    · exact Or.inr (Or.inl ⟨b, r, rfl, by rcases hnl with rfl | rfl <;> decide⟩)
+    · have hbl : b = 32 ∨ b = 9 := by
+        rcases hb with h | h | h | h
+        · exact Or.inl h
+        · exact Or.inr h
+        · exact absurd (Or.inl h) hnl
+        · exact absurd (Or.inr h) hnl
+      cases r with
+      | nil => exact absurd (h1 b rfl) hnl
+      | cons x r' =>
+        right; right
+        refine ⟨b, x, r', rfl, hbl, ?_⟩
+        rcases hw x (by simp) with h | h | h | h
+        · exact Or.inl h
+        · exact Or.inr (Or.inl h)
+        · exact Or.inr (Or.inr (Or.inl (by rw [h]; decide)))
+        · exact Or.inr (Or.inr (Or.inl (by rw [h]; decide)))
 
-theorem gridOkW_of {md : OTags} {cols : Cols} {rows : Rows} {ver : List Char} {m nl1 cl nl2 rw : List UInt8}
-    (hwf : wfS (.grid md cols rows ver) = true) (hm : SpMeta md m) (hn1 : Nl nl1) (hc : SpCols cols cl) (hn2 : Nl nl2)
-    (hr : SpRows cols.names rows rw) : GridOkW md cols rows ver m nl1 cl nl2 rw := by
+/-- a document that is not a grid: blanks, the value, blanks and line endings -/
+theorem fromBytes_of_SpOk {v : Val} {bs lead trail : List UInt8} (h : SpOk v bs) (hl : Blanks lead) (ht : Trailer trail)
+    (hn : nestV v < 64) : fromBytes (lead ++ bs ++ trail) = .ok (lexImg v) := by
+  have e : lead ++ bs ++ trail = lead ++ (bs ++ trail) := by simp
+  rw [e]
+  unfold fromBytes fuelFor
+  have hat : At (Scan.make (lead ++ (bs ++ trail))) (lead ++ (bs ++ trail)) := At_make_all _
+  have hs : (Scan.make (lead ++ (bs ++ trail))).stash = [] := by cases hx : lead ++ (bs ++ trail) <;> simp [Scan.make]
+  have hlen : (lead ++ (bs ++ trail)).length = lead.length + bs.length + trail.length := by simp; omega
+  obtain ⟨p, p', e1, _, _, e2, _⟩ := h.rd.skip h.first lead hl 0 (8 * (lead ++ (bs ++ trail)).length + 64)
+    (8 * (lead ++ (bs ++ trail)).length + 64) (Scan.make (lead ++ (bs ++ trail))) trail hat (by rw [hs]; simp) (fun _ => hs)
+    (DelimW_of_trailer ht) (by omega) (by omega) (by omega)
+  simp only [e1, e2]
+
+theorem gridOkW_of {tlf : Bool} {md : OTags} {cols : Cols} {rows : Rows} {ver : List Char}
+    {m w1 nl1 cl w2 nl2 rw : List UInt8}
+    (hwf : wfS (.grid md cols rows ver) = true) (hm : SpMeta md m) (hw1 : Blanks w1) (hn1 : Nl nl1) (hc : SpCols cols cl)
+    (hw2 : Blanks w2) (hn2 : Nl nl2) (hr : SpRows cols.names rows rw)
+    (hT : tlf = true → (nl2 ++ rw).getLast? ≠ some 13) : GridOkW tlf md cols rows ver m w1 nl1 cl w2 nl2 rw := by
   simp only [wfS, Bool.and_eq_true, beq_iff_eq] at hwf
   obtain ⟨⟨⟨⟨⟨⟨hver, hms⟩, hcs⟩, hrs⟩, hwo⟩, hwc⟩, hwr⟩ := hwf
   simp only [colsShape, Bool.and_eq_true] at hcs
-  exact ⟨hver, spMeta (tagLoop_dict (by decide)) md m hwo hms hm, spCols cols cl hwc hcs.1.2 hc, nodupB_nodup _ hcs.2,
-    spRows cols.names (cols.length == 1) rows rw hwr hrs hr, hn1, hn2⟩
+  refine ⟨hver, spMeta (tagLoop_dict (by decide)) md m hwo hms hm, spCols cols cl hwc hcs.1.2 hc, nodupB_nodup _ hcs.2,
+    spRows cols.names (cols.length == 1) tlf rows rw hwr hrs hr ?_, hw1, hn1, hw2, hn2, ?_⟩
+  · intro e hr'
+    have := hT e
+    rwa [getLast?_append_ne _ _ hr'] at this
+  · intro e hr'
+    cases tlf with
+    | false => rfl
+    | true =>
+      exfalso
+      subst e; subst hr'
+      exact hT rfl (by simp)
 
 theorem SpGrid_inv : ∀ {md : OTags} {cols : Cols} {rows : Rows} {ver : List Char} {body : List UInt8},
     SpGrid md cols rows ver body →
-    ∃ m nl1 cl nl2 rw, body = gridText m nl1 cl nl2 rw ∧ SpMeta md m ∧ Nl nl1 ∧ SpCols cols cl ∧ Nl nl2 ∧
-      SpRows cols.names rows rw
-  | _, _, _, _, _, .mk _ _ _ _ m nl1 cl nl2 rw hm hn1 hc hn2 hr => ⟨m, nl1, cl, nl2, rw, rfl, hm, hn1, hc, hn2, hr⟩
+    ∃ m w1 nl1 cl w2 nl2 rw, body = gridText m w1 nl1 cl w2 nl2 rw ∧ SpMeta md m ∧ Blanks w1 ∧ Nl nl1 ∧ SpCols cols cl ∧
+      Blanks w2 ∧ Nl nl2 ∧ SpRows cols.names rows rw
+  | _, _, _, _, _, .mk _ _ _ _ m w1 nl1 cl w2 nl2 rw hm hw1 hn1 hc hw2 hn2 hr =>
+    ⟨m, w1, nl1, cl, w2, nl2, rw, rfl, hm, hw1, hn1, hc, hw2, hn2, hr⟩
+
+theorem tail_head_lf {w nl trail : List UInt8} (hw : Blanks w) (hn : Nl nl) (h : (w ++ (nl ++ trail)).head? = some 10) :
+    w = [] ∧ nl = [10] := by
+  cases w with
+  | cons b w' =>
+    simp only [List.cons_append, List.head?_cons, Option.some.injEq] at h
+    rcases Blanks.head hw with e | e <;> (rw [e] at h; cases h)
+  | nil =>
+    refine ⟨rfl, ?_⟩
+    cases hn with
+    | lf => rfl
+    | crlf => simp at h
+    | cr => simp at h
 
 theorem SpellsTop_inv : ∀ {v : Val} {bs : List UInt8}, SpellsTop v bs →
-    Spells v bs ∨ ∃ md cols rows ver body tail, v = .grid md cols rows ver ∧ bs = body ++ tail ∧
-      SpGrid md cols rows ver body ∧ GridEnd false tail []
-  | _, _, .other _ _ _ h => Or.inl h
-  | .grid md cols rows ver, _, .grid _ _ _ _ body h =>
-    Or.inr ⟨md, cols, rows, ver, body, [], rfl, by simp, h, GridEnd.top⟩
-  | .grid md cols rows ver, _, .gridNl _ _ _ _ body nl h hn =>
-    Or.inr ⟨md, cols, rows, ver, body, nl, rfl, rfl, h, GridEnd.topNl nl hn⟩
+    (∃ lead bs' trail, bs = lead ++ bs' ++ trail ∧ Blanks lead ∧ Spells v bs' ∧ Trailer trail) ∨
+    ∃ md cols rows ver lead body tail, v = .grid md cols rows ver ∧ bs = lead ++ body ++ tail ∧ Blanks lead ∧
+      SpGrid md cols rows ver body ∧ GridEnd false tail [] ∧ (tail.head? = some 10 → body.getLast? ≠ some 13)
+  | _, _, .other _ lead bs' trail _ hl h ht => Or.inl ⟨lead, bs', trail, rfl, hl, h, ht⟩
+  | .grid md cols rows ver, _, .grid _ _ _ _ lead body hl h =>
+    Or.inr ⟨md, cols, rows, ver, lead, body, [], rfl, by simp, hl, h, GridEnd.top, by simp⟩
+  | .grid md cols rows ver, _, .gridNl _ _ _ _ lead body w nl trail hl h hw hn ht hcr =>
+    Or.inr ⟨md, cols, rows, ver, lead, body, w ++ (nl ++ trail), rfl, by simp, hl, h, GridEnd.topNl w nl trail hw hn ht,
+      fun h10 => hcr (tail_head_lf hw hn h10).1 (tail_head_lf hw hn h10).2⟩
 
 /-- **C04, read direction, for the model** (in the lemma files' vocabulary) -/
 theorem read_of_spells (v : Val) (bs : List UInt8) (hwf : wfS v = true) (hn : nestV v < 64) (h : SpellsTop v bs) :
     fromBytes bs = .ok (lexImg v) := by
-  rcases SpellsTop_inv h with h' | ⟨md, cols, rows, ver, body, tail, rfl, rfl, h', hE⟩
-  · exact fromBytes_of_SpOk (spV v bs hwf h') hn
-  · obtain ⟨m, nl1, cl, nl2, rw, rfl, hm, hn1, hc, hn2, hr⟩ := SpGrid_inv h'
-    exact fromBytes_gridW (gridOkW_of hwf hm hn1 hc hn2 hr) hE hn
+  rcases SpellsTop_inv h with ⟨lead, bs', trail, rfl, hl, h', ht⟩ |
+      ⟨md, cols, rows, ver, lead, body, tail, rfl, rfl, hl, h', hE, hcr⟩
+  · exact fromBytes_of_SpOk (spV v bs' hwf h') hl ht hn
+  · obtain ⟨m, w1, nl1, cl, w2, nl2, rw, rfl, hm, hw1, hn1, hc, hw2, hn2, hr⟩ := SpGrid_inv h'
+    have hnl2 : nl2 ++ rw ≠ [] := by cases hn2 <;> simp
+    have hlast : (gridText m w1 nl1 cl w2 nl2 rw).getLast? = (nl2 ++ rw).getLast? := by
+      have : gridText m w1 nl1 cl w2 nl2 rw = ([118, 101, 114, 58, 34, 51, 46, 48, 34] ++ m ++ w1 ++ nl1 ++ cl ++ w2) ++ (nl2 ++ rw) := by
+        simp [gridText]
+      rw [this, getLast?_append_ne _ _ hnl2]
+    by_cases h10 : tail.head? = some 10
+    · exact fromBytes_gridW (tlf := true) (gridOkW_of hwf hm hw1 hn1 hc hw2 hn2 hr (fun _ => by rw [← hlast]; exact hcr h10))
+        hl hE (fun e => by cases e) hn
+    · exact fromBytes_gridW (tlf := false) (gridOkW_of hwf hm hw1 hn1 hc hw2 hn2 hr (fun e => by cases e))
+        hl hE (fun _ => h10) hn
 
 end Hs.Zinc
